@@ -43,4 +43,34 @@ theorem facts_leaf_callback :
   decide
 
 
+/-- What gates a write in `AccountDB.Commit` and where dirty state is reset:
+    `InsertBlob` is gated by `nftSet != nil && dirtyNFTSet`; the only place a
+    `dirty*` flag is cleared (set to anything but `true`) besides the one-shot
+    `onDirty` callback, object copies and whole-state `Reset`/`Clean` is
+    `AccountDB.Commit` itself, after the blob was inserted; the dirty sets are
+    only drained by `updateTrie` (which writes the slot), by `Commit`, and by the
+    undo of an object creation / a touch.  A journal undo that clears a flag
+    (so that what it restored is never flushed) changes this inventory. -/
+theorem facts_dirty_flags :
+    TrieDbFacts.insertBlobGate = "accountObject.nftSet != nil && accountObject.dirtyNFTSet" ∧
+    TrieDbFacts.dirtyFlagClearSites =
+      ["src/storage/account/account_object.go:accountObject.deepCopy:dirtyStorage=ao.dirtyStorage.Copy()",
+       "src/storage/account/account_object.go:accountObject.markSuicided:onDirty=nil",
+       "src/storage/account/account_object.go:accountObject.setData:onDirty=nil",
+       "src/storage/account/account_object.go:accountObject.setNonce:onDirty=nil",
+       "src/storage/account/account_object.go:accountObject.touch:onDirty=nil",
+       "src/storage/account/account_object_nftset.go:accountObject.setNFTSetDefinition:onDirty=nil",
+       "src/storage/account/accountdb.go:AccountDB.Clean:accountObjectsDirty=make(map[common.Address]struct{})",
+       "src/storage/account/accountdb.go:AccountDB.Commit:dirtyNFTSet=false",
+       "src/storage/account/accountdb.go:AccountDB.Reset:accountObjectsDirty=make(map[common.Address]struct{})"] ∧
+    TrieDbFacts.dirtySetDeleteSites =
+      ["src/storage/account/account_object.go:accountObject.updateTrie:ao.dirtyStorage",
+       "src/storage/account/accountdb.go:AccountDB.Commit:adb.accountObjectsDirty",
+       "src/storage/account/transition.go:createObjectChange.undo:s.accountObjectsDirty",
+       "src/storage/account/transition.go:touchChange.undo:s.accountObjectsDirty"] := by decide
+
+/-- no journal undo (transition.go) assigns a `dirty*` field directly: undos restore
+    fields through the setters, which mark the object and the field dirty again. -/
+theorem facts_no_undo_assigns_a_dirty_flag : TrieDbFacts.undoDirtyFieldAssignments = [] := by decide
+
 end Rangers.Props.C03Facts
